@@ -50,7 +50,7 @@ def main():
         shutil.copytree(d, t, ignore=shutil.ignore_patterns("target", "*.log"))
         notes = open(os.path.join(t, "notes.md")).read() if os.path.exists(os.path.join(t, "notes.md")) else ""
         meta = {"breaks_property": cid.split("-")[0], "written_for_property": cid.split("-")[0], "title": notes.strip().split("\n")[0].lstrip("# "),
-                "needs_to_manifest": "see notes.md", "base_commit_of_patch": head, "batch": 5, "demo_confirmed": True,
+                "needs_to_manifest": "see notes.md", "base_commit_of_patch": head, "batch": int(os.environ.get("SEED_BATCH", "5")), "demo_confirmed": True,
                 "confirmation": {"demo_on_clean_tree": "pass", "tests_passed": passed, "tests_failed": failed, "demo_with_change": "fail",
                                  "how": "tools/confirm_seeded.py in a scratch worktree at base_commit_of_patch"}}
         json.dump(meta, open(os.path.join(t, "meta.json"), "w"), indent=1)
